@@ -56,24 +56,31 @@ def strategy_(draw):
         x0 = gen.leaves_of(tab["states"])[0]
         sp["alg"] = [[["-", z, ["*", ["sin", ["t"]], x0]]]]
     gen.fill_param_values(draw, sp, 2)
+    sp["dyn_concat"] = draw(st.integers(0, 2)) == 0        # der() uses the right-hand sides however they were declared
+    sp["dyn_reversed"] = draw(st.integers(0, 2)) == 0
     horder = draw(st.sampled_from([0, 0, 1, 2, 3]))
     sorder = draw(st.sampled_from([0, 0, 1, 2, 4]))
+    sorder2 = draw(st.sampled_from([0, 1, 3])) if sorder else 0      # a second B-spline signal, declared after the first
     leaves = gen.leaves_of(sp["states"]) + gen.leaves_of(sp["params"]) + gen.leaves_of(sp["vars"])
     extra = []
     if horder:
         extra.append(E.S("hc", 0))
     if sorder:
         extra.append(E.S("bs", 0))
+    if sorder2:
+        extra.append(E.S("bs2", 0))
     r, c = draw(st.sampled_from([(1, 1), (1, 1), (2, 1), (1, 2), (2, 2)]))
     exprs = []
     for _ in range(r * c):
         e = draw(gen.free_expr(leaves + extra, depth=3))
         if extra and draw(st.booleans()):
             e = ["+", e, ["*", draw(st.sampled_from(extra)), draw(st.sampled_from(leaves))]]
+        if sorder2 and draw(st.booleans()):
+            e = ["+", e, ["*", E.S("bs2", 0), ["sq", E.S("bs", 0)]]]      # the later signal appears first
         if not E.has_op(e, "t") and draw(st.integers(0, 2)) > 0:
             e = ["+", e, ["*", ["sin", ["t"]], draw(st.sampled_from(leaves))]]
         exprs.append(e)
-    return {"kind": "formula", "spec": sp, "horder": horder, "sorder": sorder, "expr": exprs, "shape": [r, c], "rng": draw(st.integers(0, 2**31 - 1))}
+    return {"kind": "formula", "spec": sp, "horder": horder, "sorder": sorder, "sorder2": sorder2, "expr": exprs, "shape": [r, c], "rng": draw(st.integers(0, 2**31 - 1))}
 
 
 def strategy(tier):
@@ -128,6 +135,10 @@ def check_formula(case, ctx):
         bs = ocp.variable(grid="bspline", order=case["sorder"])
         B.syms["bs"] = bs
         B.decl["bs"] = {"name": "bs", "rows": 1, "cols": 1, "kind": "var", "stage": "main", "grid": "bspline"}
+    if case.get("sorder2"):
+        bs2 = ocp.variable(grid="bspline", order=case["sorder2"])
+        B.syms["bs2"] = bs2
+        B.decl["bs2"] = {"name": "bs2", "rows": 1, "cols": 1, "kind": "var", "stage": "main", "grid": "bspline"}
     B.stage = ocp
     e_mx = vec_expr(B, case["expr"], r, c, ocp)
     fails = []
@@ -142,12 +153,15 @@ def check_formula(case, ctx):
                 return fails
             chain.append(cur)
     dbs = ocp.der(B.syms["bs"]) if case["sorder"] else None
-    names = [n for n, d in B.decl.items() if n not in ("hc", "bs")]
+    dbs2 = ocp.der(B.syms["bs2"]) if case.get("sorder2") else None
+    names = [n for n, d in B.decl.items() if n not in ("hc", "bs", "bs2")]
     ins = [B.syms[n] for n in names] + [ocp.t]
     if case["horder"]:
         ins += chain
     if case["sorder"]:
         ins += [B.syms["bs"], dbs]
+    if case.get("sorder2"):
+        ins += [B.syms["bs2"], dbs2]
     F = ca.Function("F", ins, [de])
     if F.has_free():
         fails.append(Fail("der-has-free-symbols", feats, {"free": str(F.get_free())}))
@@ -174,6 +188,10 @@ def check_formula(case, ctx):
         if case["sorder"]:
             args += [sv, dsv]
             vals["bs"] = np.array([sv])
+        sv2, dsv2 = float(rng.uniform(-1, 1)), float(rng.uniform(-1, 1))
+        if case.get("sorder2"):
+            args += [sv2, dsv2]
+            vals["bs2"] = np.array([sv2])
         got = DMa(F(*args))
         x = np.concatenate([vals[d["name"]] for d in R.states]) if R.states else np.zeros(0)
         base = {n: v for n, v in vals.items()}
@@ -186,6 +204,8 @@ def check_formula(case, ctx):
                 v2["hc"] = np.array([cvals[0] + h * cvals[1]])
             if case["sorder"]:
                 v2["bs"] = np.array([sv + h * dsv])
+            if case.get("sorder2"):
+                v2["bs2"] = np.array([sv2 + h * dsv2])
             env = E.Env(v2, t=t + h)
             return np.array([E.ev(e, env) for e in case["expr"]]).reshape((c, r)).T
 
